@@ -33,6 +33,7 @@ type c18Env struct {
 	a, b    *ProxyInst // same name, different instances
 	la, lb  *ProxyInst // loop pair: la -> lb -> la
 	laa     *ProxyInst // self loop
+	cx, cxh *ProxyInst // behind an upstream HTTP proxy that records the CONNECTs it gets; cxh also has a --connect-header rule
 	own     map[*ProxyInst]string
 }
 
@@ -109,10 +110,12 @@ func getEnv18() (*c18Env, error) {
 		e.la = mk(ProxyOpts{ListenAddr: addrA, Upstream: "http://" + addrB})
 		e.lb = mk(ProxyOpts{ListenAddr: addrB, Upstream: "http://" + addrA})
 		e.laa = mk(ProxyOpts{ListenAddr: addrS, Upstream: "http://" + addrS})
+		e.cx = mk(ProxyOpts{Upstream: "http://" + base.upstream.Addr})
+		e.cxh = mk(ProxyOpts{Upstream: "http://" + base.upstream.Addr, ConnectHeaders: []string{"X-C18-Connect: yes"}})
 		if env18Err != nil {
 			return
 		}
-		for _, p := range []*ProxyInst{e.a, e.b} {
+		for _, p := range []*ProxyInst{e.a, e.b, e.cx, e.cxh} {
 			v, err := learnOwnVia(base, p, base.origin.Addr, false)
 			if err != nil {
 				env18Err = fmt.Errorf("learning own Via: %w", err)
@@ -138,7 +141,7 @@ var c18Others = []string{"1.1 other", "1.0 fred", "1.1 p.example.net:8080", "1.1
 	"1.1 edge (Acme \\(edge gateway)", "1.1 gw (build 12\\) rc)", "1.1 c (a, b)", "1.1 n (nested (deep (er)) comment)", "1.1 q (say \\\"hi\\\")", "1.1 e ()", "1.1 bs (back\\\\slash)"}
 
 func genC18(t *rapid.T) C18Case {
-	c := C18Case{Mode: rapid.SampledFrom([]string{"chain", "chain", "chain", "chain-mitm", "loop-aa", "loop-aba"}).Draw(t, "mode")}
+	c := C18Case{Mode: rapid.SampledFrom([]string{"chain", "chain", "chain", "chain-mitm", "loop-aa", "loop-aba", "chain-connect", "chain-connect-hdr"}).Draw(t, "mode")}
 	n := rapid.IntRange(0, 5).Draw(t, "nelems")
 	for i := 0; i < n; i++ {
 		c.Elems = append(c.Elems, rapid.SampledFrom(c18Others).Draw(t, "elem"))
@@ -179,6 +182,10 @@ func runC18(c C18Case) (fails []vstat.Failure) {
 		px = e.a
 	case "chain-mitm":
 		px, mitm = base.proxies["mitm"], true
+	case "chain-connect":
+		px = e.cx
+	case "chain-connect-hdr":
+		px = e.cxh
 	case "loop-aa":
 		px = e.laa
 	case "loop-aba":
@@ -244,6 +251,53 @@ func runC18(c C18Case) (fails []vstat.Failure) {
 	ver := "1.1"
 	if c.HTTP10 {
 		proto, ver = "HTTP/1.0", "1.0"
+	}
+	if strings.HasPrefix(c.Mode, "chain-connect") {
+		// a CONNECT that is passed on to an upstream proxy is a forwarded request too: the upstream proxy sees the
+		// chain plus this instance's element; a chain that already holds the element is refused, nothing is sent
+		up := base.upstream
+		since := up.RequestCount()
+		req := fmt.Sprintf("CONNECT %s %s\r\nHost: %s\r\nX-Vid: %s\r\n", host, proto, host, vid)
+		for _, l := range lines {
+			req += l + "\r\n"
+		}
+		req += "\r\n"
+		if _, err := conn.Write([]byte(req)); err != nil {
+			return []vstat.Failure{vstat.Failf(key("write"), "write: %v", err)}
+		}
+		m, err := ReadResponse(bufio.NewReader(conn), "CONNECT")
+		if err != nil {
+			return []vstat.Failure{vstat.Failf(key("no-response"), "no response to CONNECT: %v", err)}
+		}
+		var rec *Msg
+		for _, r := range up.RequestsSince(since) {
+			if r.Msg != nil && r.Msg.Method == "CONNECT" && (r.Msg.First("X-Vid") == vid || (r.Msg.First("X-Vid") == "" && r.Msg.Target == host)) {
+				rec = r.Msg
+			}
+		}
+		lineKey := ""
+		if len(lines) > 1 {
+			lineKey = "multiline:"
+		}
+		switch {
+		case hasOwn:
+			if m.Status != 400 {
+				fails = append(fails, vstat.Failf(key(lineKey+"own-not-refused"), "CONNECT whose Via lines %q contain the instance's own element %q: the proxy answered %d", lines, own, m.Status))
+			}
+			if rec != nil {
+				fails = append(fails, vstat.Failf(key(lineKey+"own-upstream-contact"), "CONNECT with own Via element was passed to the upstream proxy (status %d)", m.Status))
+			}
+		case m.Status != 200 || rec == nil:
+			fails = append(fails, vstat.Failf(key("others-refused"), "CONNECT whose Via lines %q contain only other hops' elements (own is %q): the proxy answered %d, upstream proxy saw it: %v", lines, own, m.Status, rec != nil))
+		default:
+			got := splitViaList(rec.Get("Via"))
+			want := append(append([]string{}, elems...), ver+" "+strings.SplitN(own, " ", 2)[1])
+			if strings.Join(got, " | ") != strings.Join(want, " | ") {
+				fails = append(fails, vstat.Failf(key(lineKey+"chain"), "Via of the CONNECT as the upstream proxy got it: %q, want %q", got, want))
+			}
+		}
+		up.TrimRequests(300)
+		return fails
 	}
 	target := "/c18"
 	if c.Form == "abs" && !mitm {
